@@ -66,7 +66,17 @@ PathsMutations == {"inner-drop-last-digest", "inner-add-digest", "inner-drop-vec
 LagMutations == {"lag-drop-element", "lag-add-element", "lag-make-frame"}
 \* whole FRI layers added (copies of the last one) or removed together with the layer count
 LayerMutations == {"add-layer-copies:" \o ToString(k) : k \in {1, 2, 3, 4, 6, 12}} \cup {"remove-last-layer"}
-MutationsOf(f) == IF f.name = "fri.num_layers" THEN {[field |-> f.name, m |-> x] : x \in ByteSet \cup LayerMutations} ELSE
+\* a different statement header with the rest of the proof kept structurally consistent with it: trace length exponent, blowup,
+\* folding factor and remainder degree take every combination the option reader admits (also the ones no honest prover can
+\* serve: folding steps that leave fewer than two rows or no point at all); the proof gets as many FRI layers and layer
+\* commitments as the verifier expects for that header, by the schedule function of Fri.tla
+FriM == INSTANCE Fri
+HeaderCombos == {<<ln, lb, f, rem>> : ln \in 3..8, lb \in 1..4, f \in {2, 4, 8, 16}, rem \in {0, 1, 3, 7, 15, 31, 63, 127, 255}}
+HeaderMutation(h) == "header:" \o ToString(h[1]) \o "," \o ToString(2 ^ h[2]) \o "," \o ToString(h[3]) \o "," \o ToString(h[4]) \o ","
+                     \o ToString(FriM!NumLayers(2 ^ (h[1] + h[2]), h[3], 2 ^ h[2], h[4]))
+HeaderMutations == {HeaderMutation(h) : h \in HeaderCombos}
+MutationsOf(f) == IF f.name = "commitments" THEN {[field |-> f.name, m |-> x] : x \in BlobMutations \cup HeaderMutations} ELSE
+                  IF f.name = "fri.num_layers" THEN {[field |-> f.name, m |-> x] : x \in ByteSet \cup LayerMutations} ELSE
                   IF f.inner = "lagframe" THEN {[field |-> f.name, m |-> x] : x \in BlobMutations \cup LagMutations} ELSE
                   IF f.inner = "paths" THEN {[field |-> f.name, m |-> x] : x \in BlobMutations \cup PathsMutations} ELSE
                   IF f.kind = "scalar" /\ f.width = 1 /\ f.name # "gkr.tag"
